@@ -36,6 +36,15 @@ INFO = {  # name: (change, what it needs to manifest, first result, what catches
  'C19-a': ("executor::build_timelines: 'end < current_time' -> '<='", "an atom that ends exactly at the current time", "detected at once", "C19 EverythingDispatched"),
  'C19-b': ("executor::tick: repeated start delay does not update the stored lower bound", "same atom delayed twice, then a failure of another atom and a re-plan that presses the delayed start back", "missed (no such plan, and the symptom matched the signature of the open finding)", "C19 DelayedStartKept on the pressure family; the finding's signature now tells delayed atoms apart"),
  'C20-a': ("parallel pivot lambda: constant term update guarded by the wrong row's constant", "PARALLELIZE build, a row with a constant term leaving the basis, a relation created afterwards over another row", "missed: no rows with constants, no creation after pivots", "C20 ParTrace on call sequences with derived variables (constant rows), creation after pivots, direct bounds"),
+ 'C04-c': ("solver::new_atom stops notifying smart types after the first one found", "a class with two smart-type ancestors where StateVariable is not the first (class Robot : Agent, StateVariable)", "check error (my plan_driver did not compile without the executor that day), then caught", "C04 NoSvOverlap on the timeline family (state variables that are also agents, both orders of the base types)"),
+ 'C06-c': ("solver::new_atom: the temporal rule for facts only for top-level predicates", "a fact on an Interval / Impulse predicate declared inside a plain (non-smart) class", "check error (same build break), then caught", "C06 TemporallyWellFormed on the inheritance family (host: plain class, origin > 0)"),
+ 'C10-c': ("idl_theory::set_dist: undo layer keeps the last overwritten value", "the same pair tightened twice within one level, then a pop (integer twin of C08-a)", "detected at once", "C10 / C08 replay of DiffLogicImpl transitions on idl_theory"),
+ 'C11-c': ("lin::operator-=(lin) no longer erases a coefficient that cancels to zero", "a RIDDLE / core subtraction in which a variable cancels exactly, the variable unbounded, NDEBUG build for the silent variant", "missed: the driver built expressions without the compound operators", "C11 (relations whose operands are built through += / -= with a cancelling term; Debug: abort, release pass: LraConstantDecided)"),
+ 'C13-c': ("ov_theory::new_eq skips values whose two controlling literals coincide", "two object variables sharing a literal for a common value (fields reached through one object variable)", "missed by C13 and C14 (the agent filed an object-variable equality under C13)", "C14 OvEquality on derived object variables that share the literals of their base variable (C13's own check does not exercise ov_theory)"),
+ 'C15-c': ("lin::operator*=(rational): zero scalar keeps the constant term", "compound *= with scalar 0 and a non-zero constant term", "detected at once", "C15 ArithTrace"),
+ 'C16-c': ("lexer::mk_rational_token: denominator from the digits of the parsed fraction (leading zeros lost)", "real literals whose fraction starts with 0 (1.05, 0.05, 2.001)", "missed: no such literal forms generated", "C16 ExpectedValue on the literal forms of ExprGen"),
+ 'C17-c': ("constructor::invoke matches supertype constructors by full name", "a class derived from a nested type whose constructor calls a non-default constructor of that supertype", "missed", "C17 ExpectedValue on the nested-supertype program"),
+ 'C18-c': ("sat_core::propagate re-registers the conflicting clause a second time", "a clause conflict above root level, the clause deleted by simplify_db, the watched literal assigned again (use after free)", "missed by C18 (caught by C07)", "C18 replay of SatCoreImpl transitions in the ASan build; C07"),
 }
 
 
